@@ -3,6 +3,7 @@ Decided clause (tables/constants only): CRC tables, x^(2^n) table, fold constant
 their definitions; every Adler kernel's deferred-modulo stride derives from NMAX and both sums are
 reduced; every dispatcher falls through to the portable kernel."""
 import os
+import re
 import sys
 
 from .. import consts, mir, shape, atoms, sig, flow
@@ -535,6 +536,7 @@ def run(ck):
     ck.configs.add("K3b")
     k3 = adler_kernels(ck, P3, "K3b")
     ck.floor("ATOM/adler-stride:K3b", k3, 4)
+    ck.floor("FLOW/crc-start:vpclmulqdq", start_consumed_once(ck, P3, "K3b"), 1)
     # VPCLMULQDQ fold16 constant against zlib-ng
     ref = zlibng_ref.load()
     ngset = set(ref.get("x86_fold_constants", []))
@@ -556,3 +558,33 @@ def run(ck):
 # session 5 (round 10)
 EXPLANATION = EXPLANATION + " " + (
     'ATOM/adler-reduce is evaluated per loop: wherever one running sum is reduced modulo BASE (inside the loop over NMAX-sized runs, or after it) the other is reduced in the same loop.')
+
+
+def start_consumed_once(ck, P, cfg, R="FLOW/crc-start"):
+    """The wide (VPCLMULQDQ) fold consumes the start value - it xors it into its first vector - and the 128-bit steps that follow in
+    the caller would consume it again.  So every helper that reads the start value through a parameter and xors it into data
+    takes it by `&mut` and stores the identity (0) back where it consumed it; a helper that takes it by value leaves the
+    caller's copy live and the start value is folded in twice."""
+    fs = [f for f in P.fns.values() if re.search(r"crc32::.*fold_help_vpclmulqdq$", f.path)]
+    if not fs:
+        ck.note("no VPCLMULQDQ fold in configuration %s" % cfg)
+        return 0
+    n = 0
+    for f in fs:
+        ck.use_fn(f)
+        idx = f.param_index("init_crc")
+        if not ck.anchor("parameter init_crc of %s" % f.path, bool(idx)):
+            continue
+        n += 1
+        ty = str(f.locals[idx]["ty"])
+        byref = ty.startswith("&mut ")
+        stored = False
+        for bi, si, lhs, rv, st in f.assignments():
+            if lhs.get("l") == idx and lhs.get("p") == ["*"]:
+                if f.const_of(f.rvalue_expr(rv)) == 0:
+                    stored = True
+        ck.decide(byref and stored, R, "fold_help_vpclmulqdq:consumed@%s" % cfg, "start value taken by &mut and reset to 0 where it is xor-ed in",
+                  "%s takes the start value as `%s`%s: the caller's copy stays non-zero after the wide fold has xor-ed it into the data, "
+                  "and the 128-bit steps that follow xor it in a second time (crc32(start != 0, ..) is wrong for aligned buffers of 256+ "
+                  "bytes on AVX-512 builds)" % (f.path, ty, "" if stored else " and never stores 0 back"), where(f))
+    return n
